@@ -261,6 +261,13 @@ def gen_case(rng, name, real):
         ops.append(ops[-1])          # repeated call
     if rng.random() < 0.08:
         ops = [rng.choice(OPS_REL)] * rng.choice([1, 2])
+    elif rng.random() < 0.3:
+        # interrupted repairs (the call is stopped at its n-th modification of the workspace: see CrashTap in the driver):
+        # a chain of 1-6 interrupted calls, each going a little further than the previous one, then the same command run to
+        # its end - after 0-2 ordinary calls, on a workspace with or without manual partial repairs
+        base = rng.choices(["fixclean", "cli-fixclean", "fix", "cli-fix"], [6, 2, 3, 1])[0]
+        chain = [f"{base}^{rng.choices([0, 1, 2, 3], [5, 3, 1, 1])[0]}" for _ in range(rng.choice([1, 2, 3, 4, 5, 6]))]
+        ops = ops[:rng.choice([0, 0, 0, 1, 2])] + chain + [base] + ([base] if rng.random() < 0.3 else [])
     return dict(name=name, jobs=jobs, manual=manual, ops=ops, real_resubmit=True)
 
 
@@ -355,7 +362,7 @@ def oracle(c, case, ans):
     state = ans["before"]
     info = dict(case=case)
     prev = None
-    any_fix = False
+    any_fix = any_crash = False
     index = ans.get("index_before", [])
     # (0) what the repair command recomputes from a stored params.json (its loader, the classes as they are now) is
     #     the identity of the same graph written with the replacement classes: the directory is linked / moved
@@ -379,7 +386,8 @@ def oracle(c, case, ans):
     for ix, op in enumerate(ans["ops"]):
         tb, ta = tree_map(state), tree_map(op["after"])
         where = dict(info, op_index=ix, op=op["op"], before=state, after=op["after"])
-        if op["error"]:
+        crashed = bool(op.get("crashed"))       # an injected interruption: the exception is ours
+        if op["error"] and not crashed:
             c.violation("C20:fix-raised", f"fix_deprecated raised {op['error']}", where)
         # (1) never deletes job data
         marks_b = {e["mark"]: e for e in state if "link" not in e}
@@ -390,6 +398,16 @@ def oracle(c, case, ans):
                             f"job data {mk} is gone after fix_deprecated(fix={op['fix']}, cleanup={op['cleanup']})", where)
             elif not set(e["done"]) <= set(marks_a[mk]["done"]):
                 c.violation("C20:done-marker-lost", f"a .done marker of {mk} disappeared", where)
+        # (9) ... nor the record of a job: a params.json that was a complete document still is one - also when the command is
+        #     interrupted at any point (full device, kill)
+        for mk, e in marks_b.items():
+            if mk in marks_a and e.get("params_ok") and not marks_a[mk].get("params_ok"):
+                c.violation("C20:interrupted-repair:job-record-destroyed" if crashed else "C20:job-record-destroyed",
+                            f"params.json of {mk} was a complete document before the call and is "
+                            + ("missing" if not marks_a[mk]["params"] else "truncated / unreadable") + " after it"
+                            + (f" (the call was interrupted at its modification #{op['op'].partition('^')[2]}: {op.get('crash_at')}): "
+                               "the job can never be repaired again and every later `deprecated list` stops at that folder" if crashed else ""),
+                            where)
         # (2) a listing call changes nothing
         if not op["fix"] and op["after"] != state:
             c.violation("C20:list-modifies:" + ("cleanup-without-fix" if op["cleanup"] else "plain"),
@@ -397,7 +415,9 @@ def oracle(c, case, ans):
                         + (" (the links of an earlier repair were removed although --cleanup is announced as ignored)"
                            if op["cleanup"] else ""), where)
         # (3) every directory stored under a former identifier is reachable under the new one
-        if op["fix"]:
+        if crashed:
+            any_fix, any_crash = False, True      # what must hold of an interrupted state is (1), (8), (9); the next call completes
+        if op["fix"] and not crashed:
             any_fix = True
             for k, e in tb.items():
                 if "link" in e or not e["params"]:
@@ -455,19 +475,20 @@ def oracle(c, case, ans):
             if ent["mark"] is None:
                 continue
             if not any(e2["xp"] == ent["xp"] and e2["folder"] == ent["folder"] and e2["mark"] == ent["mark"] for e2 in index):
-                c.violation("C20:experiment-index-broken:" + ("cleanup" if op["cleanup"] else "link"),
+                c.violation("C20:interrupted-repair:experiment-index-broken" if crashed else
+                            "C20:experiment-index-broken:" + ("cleanup" if op["cleanup"] else "link"),
                             f"the job {ent['mark']} belongs to experiment {ent['xp']} (xp/{ent['xp']}/{ent['folder']}/{'/'.join(ent['k'])} "
                             "led to its directory); after the repair no entry of that experiment leads to it: the link dangles since the "
                             "directory was moved, `orphans` lists the moved directory and `orphans --clean` deletes the data",
                             dict(where, entry=ent, index_after=index, orphans=ans.get("orphans")))
         # (5) a second identical repair is a no-op
-        if prev is not None and op["fix"] and (prev["fix"], prev["cleanup"]) == (op["fix"], op["cleanup"]):
+        if prev is not None and not crashed and op["fix"] and (prev["fix"], prev["cleanup"]) == (op["fix"], op["cleanup"]):
             if not op["cleanup"] or well_shaped(tree_map(prev["_before"]), exp):
                 if op["after"] != state:
                     c.violation("C20:not-idempotent:" + ("cleanup" if op["cleanup"] else "link"),
                                 "repeating the same repair changed the tree again", dict(where, first_before=prev["_before"]))
         op["_before"] = state
-        prev = op
+        prev = None if crashed else op
         state = op["after"]
     # (8') ... and `orphans` (listing only) does not report a directory that an experiment referred to before the repair
     listed = set((ans.get("orphans") or {}).get("listed", []))
@@ -476,7 +497,8 @@ def oracle(c, case, ans):
         for ent in ans.get("index_before", []):
             e = last.get(ent["mark"])
             if ent["mark"] is not None and e is not None and "/".join(e["k"]) in listed:
-                c.violation("C20:experiment-index-broken:" + ("cleanup" if any(op["cleanup"] and op["fix"] for op in ans["ops"]) else "link"),
+                c.violation("C20:interrupted-repair:experiment-index-broken" if any_crash else
+                            "C20:experiment-index-broken:" + ("cleanup" if any(op["cleanup"] and op["fix"] for op in ans["ops"]) else "link"),
                             f"the job {ent['mark']} belonged to experiment {ent['xp']} before the repair; afterwards `orphans` reports its "
                             "directory as belonging to no experiment (`orphans --clean` would delete it)",
                             dict(info, entry=ent, orphans=ans["orphans"], final=ans["ops"][-1]["after"]))
@@ -487,6 +509,8 @@ def oracle(c, case, ans):
             continue     # (a directory whose params.json is missing or unreadable is never examined by the repair)
         renamed = o["name"] != ans["new"][ix]["name"]
         key = "C20:resubmit-misses-result:" + ("task-renamed" if renamed else "same-name")
+        if any_crash:       # an earlier call was interrupted and the command was run again to its end
+            key = "C20:interrupted-repair:result-not-found-after-rerun"
         if not r["done_visible"]:
             c.violation(key, "the repaired path leads to the old job directory, but its .done marker is not visible "
                         "under the name of the replacement task: a re-submit runs the job again",
@@ -540,7 +564,7 @@ def g_case(item):
         o1, o2 = (loops[0], loops[1]) if len(loops) >= 2 else ([], loops[0] if loops else [])
         if op.get("examined") is not None:
             o2 = op["examined"]      # the directories in the order the main loop examined them (links are skipped by both)
-        ops.append(f"{{| o_fix := {gbool(op['fix'])}; o_cleanup := {gbool(op['cleanup'])}; "
+        ops.append(f"{{| o_fix := {gbool(op['fix'])}; o_cleanup := {gbool(op['cleanup'])}; o_crash := {gbool(op.get('crashed'))}; "
                    f"o_ord1 := {glist(gk(tkey(k)) for k in o1)}; o_ord2 := {glist(gk(tkey(k)) for k in o2)}; "
                    f"o_after := {glist(g_o(e) for e in op['after'])} |}}")
     return f"({init}, {glist(ops)})"
@@ -875,8 +899,10 @@ def run(c: Check):
         for m, ap in zip(case["manual"], ans["manual_applied"]):
             if ap:
                 c.count("manual:" + m[0] + (":" + "+".join(sorted(list(m[1])[:1] + list(m[2])[:1])) if m[0] == "link" else ""))
-        for op in case["ops"]:
-            c.count("op:" + op)
+        for op, r in zip(case["ops"], ans["ops"]):
+            c.count("op:" + (op.partition("^")[0] + "^interrupted" if "^" in op else op))
+            if "^" in op:
+                c.count("interruption:" + (f"at-{r['crash_at']}" if r.get("crashed") else "none(the call made fewer modifications)"))
         for j in case["jobs"]:
             cl = classes_of(j["spec"])
             c.count("job:root-deprecated" if cl[0] in OLD else "job:root-current")
